@@ -23,12 +23,17 @@ def one(sd):
         if r.returncode != 0:
             return name, {"error": "patch does not apply on the current tree: " + (r.stdout + r.stderr)[-200:]}
         fired = {}
+        # all 20 quick checks with one load of the scratch tree (tools/check_all.py: the rules and verdicts of `./check CNN
+        # --repo DIR`, each property decided in a forked child of its own)
+        r = subprocess.run(["/venv/bin/python", "-B", os.path.join(ROOT, "tools", "check_all.py"), "--repo", d], cwd=ROOT, capture_output=True, text=True)
+        try:
+            allres = json.loads(r.stdout.strip().splitlines()[-1])
+        except Exception:  # noqa: BLE001
+            return name, {"error": "check_all failed: " + (r.stdout + r.stderr)[-200:]}
         for p in PROPS:
-            r = subprocess.run([os.path.join(ROOT, "check"), p, "--repo", d], cwd=ROOT, capture_output=True, text=True)
-            out = r.stdout + r.stderr
-            rules = sorted({l.split("rule ")[1].split(":")[0] for l in out.splitlines() if l.strip().startswith("rule ")})
-            if r.returncode != 0:
-                fired[p] = {"exit": r.returncode, "rules": rules}
+            v = allres.get(p, {"exit": 2, "rules": []})
+            if v["exit"] != 0:
+                fired[p] = {"exit": v["exit"], "rules": v["rules"]}
         return name, {"property": prop, "fired": fired, "own": fired.get(prop, {}).get("exit") == 1}
     finally:
         shutil.rmtree(d, ignore_errors=True)
